@@ -64,9 +64,14 @@ def gen_callable(r, idx, profile='mixed'):
         if seen_default or r.random() < 0.3:
             seen_default = True
             dflt = lit_src(r, ann)[0] if ann is not None else '5'
-        params.append((f'p{i}', ann, dflt))
-    star = r.random() < 0.2
-    dstar = r.random() < 0.2
+        pname = f'p{i}'
+        if r.random() < 0.08 and kind not in ('class_class',):      # cls / args / kwargs used as ordinary parameter names
+            cand = [n for n in ('cls', 'args', 'kwargs') if n not in [q[0] for q in params]]
+            if cand:
+                pname = r.choice(cand)
+        params.append((pname, ann, dflt))
+    star = r.random() < 0.2 and 'args' not in [q[0] for q in params]
+    dstar = r.random() < 0.2 and 'kwargs' not in [q[0] for q in params]
     star_ann = r.choice(['int', 'int', 'str', None, 'list', 'List[int]']) if star else None
     dstar_ann = r.choice(['int', 'str', None, 'dict', 'Optional[int]']) if dstar else None
     kwonly = []
@@ -308,9 +313,10 @@ def gen_call(r, F, desc, style=None, bad_range=8, hot=()):
         for _ in range(r.randint(0, 2)):
             pos.append(value_for(star_ann))
     if has_dstar:
-        own = {K.name_of(p['name']) for p in desc['params']}
-        # keys of **kwargs: also the names other callables use for their named parameters (state kept between calls must not leak)
-        pool = [n for n in ('x0', 'x1', 'p0', 'p1', 'p2', 'k0') if n not in own]
+        own = {K.name_of(p['name']) for p in desc['params'] if p['kind'] in ('pk', 'ko')}
+        # keys of **kwargs: also the names other callables use for their named parameters (state kept between calls must not leak),
+        # and the names of the variadic parameters themselves (f(a=1, kwargs=..) lands in **kwargs under the key 'kwargs')
+        pool = [n for n in ('x0', 'x1', 'p0', 'p1', 'p2', 'k0', 'kwargs', 'args') if n not in own]
         keys = r.sample(pool, min(len(pool), r.randint(0, 2)))
         if hot and r.random() < 0.8:
             keys = list(dict.fromkeys([n for n in hot if n not in own][:2] + keys))[:3]
